@@ -3,11 +3,13 @@ module gosymex
 go 1.23
 
 require (
+	golang.org/x/net v0.34.0
 	golang.org/x/text v0.21.0
 	golang.org/x/tools v0.29.0
 )
 
 require (
+	golang.org/x/net v0.34.0
 	golang.org/x/mod v0.22.0 // indirect
 	golang.org/x/sync v0.10.0 // indirect
 )
